@@ -120,7 +120,8 @@ def emit(comp, start, endspec, alarms):
     lines = [f"BEGIN:{comp}", "UID:verif-c14", "SUMMARY:alarm scenario"]
     if start is not None:
         lines.append(emit_line("DTSTART", start))
-    if endspec:
+    late_end = bool(endspec) and len(alarms) % 2 == 1        # properties of a component may follow its subcomponents
+    if endspec and not late_end:
         lines.append(emit_line(endname if endspec[0] == "end" else "DURATION", endspec[1]))
     for trig, related, rep, dur in alarms:
         lines.append("BEGIN:VALARM")
@@ -138,6 +139,8 @@ def emit(comp, start, endspec, alarms):
         if dur is not None:
             lines.append(emit_line("DURATION", dur))
         lines.append("END:VALARM")
+    if late_end:
+        lines.append(emit_line(endname if endspec[0] == "end" else "DURATION", endspec[1]))
     lines.append(f"END:{comp}")
     return "\r\n".join(lines) + "\r\n"
 
